@@ -134,6 +134,17 @@ class Transport(object):
         from suds.transport.options import Options
         self.options = Options()
 
+    def __deepcopy__(self, memo={}):
+        # A copy is a new transport of the same class carrying the same
+        # option values (its options are never shared with or linked to the
+        # original's, which a member-wise copy would do).
+        from suds.properties import Unskin
+        clone = self.__class__()
+        p = Unskin(self.options)
+        cp = Unskin(clone.options)
+        cp.update(p)
+        return clone
+
     def open(self, request):
         """
         Open the URL in the specified request.
